@@ -258,3 +258,30 @@ def run_graph(spec_dirs, props_module, prop_names, prop_id, binary, test_name, g
                 cut=sum(1 for t in observed if t.get("cut")), leaked=sum(1 for t in observed if t.get("leaked")),
                 alt=getattr(val, "alt", 0), edges_seen=len(val.edges_seen), ambiguous=val.ambiguous)
     return observed, verdict, (n_steps, n_drift, samples), info
+
+
+def replay_saved(spec_dirs, props_module, prop_names, prop_id, binary, test_name, replay_file, label, copies=40):
+    """Re-executes the schedule of a saved violation `copies` times (the outcome of a step in which several parties
+    act at once is the code's choice) and judges every run.  Returns the exit code."""
+    sc = core.scratch("rp")
+    try:
+        tr = json.load(open(replay_file))["trace"]
+        steps = [{"act": s["act"], "obs": s["obs"], "viol": []} for s in tr["steps"]]
+        pf = os.path.join(sc, "paths.ndjson")
+        with open(pf, "w") as f:
+            for i in range(copies):
+                f.write(json.dumps({"id": i, "init_obs": tr.get("init_obs"), "steps": steps}) + "\n")
+        observed, _ = family.run_driver(binary, test_name, pf, os.path.join(sc, "obs.ndjson"), sc,
+                                        env_extra={"VERIF_SEED": "1"})
+        errs = [t["error"] for t in observed if t.get("error")]
+        if errs:
+            raise core.MachineryError("replay: driver error: %s" % errs[0][:800])
+        verdict = family.judge(spec_dirs, props_module, prop_names, prop_id, observed, label=label)
+        for v in verdict["violations"][:3]:
+            print("VIOLATION property=%s replay=%s" % (prop_id, replay_file))
+            print("  violated: %s at step %d of: %s" % (",".join(v["props"]), v["step"], " ".join(v["labels"])))
+        print("replay: %d of %d executions of the schedule violated the property" % (len(verdict["violations"]), copies))
+        return 1 if verdict["violations"] else 0
+    finally:
+        import shutil
+        shutil.rmtree(sc, ignore_errors=True)
